@@ -16,6 +16,8 @@ def run(R):
     if not R.build():
         return
     R.lean(["C18"])
+    import hunted
+    hunted.run(R, "C18")
     quick = R.tier == "quick"
     rng = R.rng
     a = [(b"l%d" % i, "L") for i in range(1, 13)]
